@@ -250,7 +250,7 @@ def project_result(op, res, naming):
 
 def exec_op(obj, objid, op, model, naming, fobj=None, seqno=1):
     """Execute one analysis operation on an existing operation object and log it."""
-    args = {'op': op, 'obj': objid, 'f': naming.abs(fobj.name) if fobj is not None else '', 'seq': seqno}
+    args = {'op': op, 'obj': objid, 'f': naming.abs(fobj.name) if fobj is not None else '', 'seq': seqno, 'ctx': ''}
     out = 'value'
     ret = empty_ret()
     try:
@@ -348,7 +348,7 @@ def project_metrics(res, model, naming):
 
 def exec_metrics(obj, objid, model, naming, flt=None, seqno=1, with_agree=True):
     """FMMetrics on an existing object (with an optional only_these_metrics filter)."""
-    args = {'op': 'metrics', 'obj': objid, 'f': ('filter:' + ','.join(flt)) if flt is not None else '', 'seq': seqno,
+    args = {'op': 'metrics', 'obj': objid, 'f': ('filter:' + ','.join(flt)) if flt is not None else '', 'seq': seqno, 'ctx': '',
             'filtered': flt is not None, 'filter': list(flt) if flt is not None else []}
     out = 'value'
     ret = empty_ret()
@@ -454,3 +454,49 @@ def compare(a, b, naming, how, edit):
     ret['errors'] = errors
     return {'a': 'Compare', 'args': {'how': how, 'edit': edit}, 'out': 'value', 'post': proj_a, 'other': proj_b,
             'anom': pa.anom + pb.anom, 'ret': ret}
+
+
+def exec_big(model, naming):
+    """The tree-shape operations on a large corpus model: scalar results only."""
+    errors = []
+
+    def run(op, fobj=None):
+        o = new_op(op)
+        try:
+            with time_limit(60):
+                if fobj is not None:
+                    o.set_feature(fobj)
+                return o.execute(model).get_result()
+        except (Exception, CallTimeout) as exc:
+            errors.append(op + ':' + errname(exc))
+            return None
+    leaves = run('leaves')
+    count = run('count_leaves')
+    depth = run('depth')
+    abf = run('abf')
+    vps = run('varpoints')
+    feats = []
+    stack = [model.root]
+    while stack:                      # own walk: number of features and of non-leaf features
+        f = stack.pop()
+        feats.append(f)
+        for r in f.relations:
+            stack.extend(r.children)
+    max_anc = 0
+    for lf in (leaves or [])[:20000]:
+        anc = run('ancestors', lf) if len(feats) <= 3000 else None
+        if anc is None:
+            n, p = 0, lf.parent          # chain of parent pointers (public attribute)
+            while p is not None:
+                n, p = n + 1, p.parent
+            max_anc = max(max_anc, n)
+        else:
+            max_anc = max(max_anc, len(anc))
+    bad = []
+    ret = {'errors': errors, 'nfeat': len(feats), 'nbranch': sum(1 for f in feats if f.relations),
+           'count_leaves': count if isinstance(count, int) else -1, 'len_leaves': len(leaves) if isinstance(leaves, list) else -2,
+           'depth': depth if isinstance(depth, int) else -1, 'max_anc_len': max_anc,
+           'abf100': _x100(abf, bad, 'abf') if abf is not None else 0,
+           'nvarpoints': len(vps) if isinstance(vps, dict) else -1}
+    ret['errors'] = errors + bad
+    return {'a': 'ExecBig', 'args': {}, 'out': 'value', 'ret': ret}
